@@ -151,7 +151,7 @@ def unit_cases(tier):
 
 def xh_conditions(tier):
     t = 150 if tier == "quick" else 500
-    return [dict(name=f"validation.{c}", file="xh/c03_validation.py", func=c, timeout=t, prop="C03") for c in ("_validation", "_two_inputs_photon_numbers")]
+    return [dict(name=f"validation.{c}", file="xh/c03_validation.py", func=c, timeout=t, prop="C03") for c in ("_ints", "_outputs", "_types", "_two_inputs_photon_numbers")]
 
 
 def harnesses(tier):
